@@ -15,7 +15,7 @@ from ..canon import canon
 
 ID = "C09"
 RULE = (
-    "every document of <=4 (quick) / <=5 (thorough) blocks over a 12-block catalogue whose entry, string and field keys come from a small pool "
+    "every document of <=4 (quick) / <=5 (thorough) blocks over a 15-block catalogue whose entry, string and field keys come from a small pool "
     "(entries a/a/b with different types and fields, an entry repeating field keys x,x,y,x, strings s/s/t, two strings named like an entry key, "
     "a free-text comment), parsed with the default stack and with parse_stack=[]; compared with a constructive reference walk (first holder "
     "live, later ones wrapped in place). Non-trivial = document with at least one key collision (distinct by document)."
@@ -37,6 +37,10 @@ CAT = [
     # every syntactic form of an entry: no comma and no fields (RefTeX), trailing comma
     ("entry", "misc", "b", [], "@misc{b}"),
     ("entry", "report", "c", [("z", "{9}")], "@report{c, z = {9},}"),
+    # blanks other than space / tab / CR / LF around keys (str.strip removes them all): still key a, field key x
+    ("entry", "conf", "a", [("t", "{5}")], "@conf{\xa0a\u2003, t\xa0= {5}}"),
+    ("dupfield", "y", "b", [("x", "{1}"), ("x", "{2}")], "@y{b, x = {1},\u3000x\x0c= {2}}"),
+    ("string", "s", "{nbsp}", "@string{\xa0s\xa0= {nbsp}}"),
 ]
 
 
@@ -45,7 +49,7 @@ def bounds(tier):
 
 
 def shards(tier):
-    return [("first", i, j) for i in range(len(CAT)) for j in range(len(CAT))] + [("short", 0), ("two_docs", 0)]
+    return [("first", i, j) for i in range(len(CAT)) for j in range(len(CAT))] + [("short", 0)] + [("two_docs", k) for k in range(32)]
 
 
 def strip1(v):
@@ -156,11 +160,13 @@ def check_doc(ids, sep, acc, case=None):
             bad("strings_dict_is_the_live_map", None, sorted(lib.strings_dict), sorted(live_s))
 
 
-def check_two_docs(acc):
+def check_two_docs(acc, stripe=None):
     """Document B parsed into the library that already holds document A (optionally after a rejected, rolled-back
     replace): the library is what parsing A+B in one go gives - B's holders of keys A already holds are flagged."""
     docs = [ids for n in (1, 2) for ids in itertools.product(range(len(CAT)), repeat=n)]
-    for a in docs:
+    for na, a in enumerate(docs):
+        if stripe is not None and na % 32 != stripe:
+            continue
         for b in docs:
             if CAT[a[-1]][0] == "comment" and CAT[b[0]][0] == "comment":
                 continue
@@ -204,7 +210,7 @@ def check_two_docs(acc):
 
 def run_shard(shard, tier, acc):
     if shard[0] == "two_docs":
-        return check_two_docs(acc)
+        return check_two_docs(acc, shard[1])
     maxb = 4 if tier == "quick" else 5
     if shard[0] == "short":
         for n in (1,):
